@@ -2,6 +2,7 @@
   Regenerated tie for C13: the tables read from /repo/logger/{json_handler,level}.go have the
   properties the Text-handler theorems rely on.  Re-proved by `decide` on every run.
 -/
+import Glb.Generated.StatusLogger
 import Glb.Model.TextHandler
 import Glb.Spec.TextExpected
 
@@ -27,5 +28,8 @@ theorem ascii_bare_class : ∀ i ∈ List.range 128,
 theorem fullLevel_valid (l : Int) (h : TextExpected.validLevel l) :
     fullLevel l = .ok (TextExpected.levelName l) := by
   rcases h with h | h | h | h | h <;> subst h <;> rfl
+
+/-- the extractor of this area recognised the source as it is on this run (a refusal removes `ok`) -/
+theorem extractor_ok : Glb.Generated.StatusLogger.ok = () := rfl
 
 end Glb.Tie.TextLogger
